@@ -1,4 +1,5 @@
 import N0Verif.Model.Xml
+import N0Verif.Proofs.Digits
 /-! Helper lemmas for C12: the reader machine on the fragments the writer emits. -/
 set_option linter.unusedSimpArgs false
 set_option linter.unusedVariables false
@@ -619,13 +620,14 @@ theorem digit_facts {c : Char} (h : c.isDigit = true) : Plain c ∧ isPySpace c 
     omega
 
 theorem numLex_natRepr (n : Nat) : NumLex (natRepr n) := by
-  have hrepr : natRepr n = Nat.toDigits 10 n := by
-    show (toString n).toList = _
-    exact Nat.toList_repr
-  rw [hrepr]
-  refine ⟨Nat.toDigits_ne_nil, ?_⟩
+  refine ⟨natDigits_ne_nil n, ?_⟩
   intro c hc
-  exact digit_facts (Nat.isDigit_of_mem_toDigits (by decide) (by decide) hc)
+  have hd : isAsciiDigit c = true := natDigits_all_digit n c hc
+  have : c.isDigit = true := by
+    simp only [isAsciiDigit, Bool.and_eq_true, decide_eq_true_eq] at hd
+    simp only [Char.isDigit, Bool.and_eq_true, decide_eq_true_eq]
+    exact hd
+  exact digit_facts this
 
 theorem numLex_intRepr (i : Int) : NumLex (intRepr i) := by
   cases i with
